@@ -8,7 +8,12 @@ received new events (a segment was split), not only when both segments were spli
 The model works on exact coordinates (float64 bit patterns decoded to one dyadic scale): the code
 compares points with `==`.
 
-  ADDX a0x a0y a1x a1y b0x b0y b1x b1y Z <k> z1x z1y …   →   <ret> <pushed>
+  ADDX <aIn> <bIn> a0x a0y a1x a1y b0x b0y b1x b1y Z <k> z1x z1y …   →   <ret> <pushed>
+
+`aIn`/`bIn`: the segment is already in the sweep status (`node != nil`). Since 4e53250 a segment in
+the status is never split directly below its left end point (the piece before the cut would be
+vertical and need reversal, the old "impossible: first segment became vertical" panic), and an
+intersection directly below the left end points of both segments is dropped.
 -/
 namespace Canvas.C01Split
 open Canvas Canvas.Wn Canvas.Region
@@ -17,25 +22,36 @@ open Canvas Canvas.Wn Canvas.Region
 point equal to the segment's left end or to its CURRENT right end (the previous split point takes
 over as right end of the first piece); every other point splits the segment once. Returns the
 number of splits. `zsRev` is the list of intersections reversed. -/
-def splits : List IPt → IPt → IPt → Nat
+def splits (sIn : Bool) : List IPt → IPt → IPt → Nat
   | [], _, _ => 0
-  | z :: zs, s0, s1 => if z == s0 || z == s1 then splits zs s0 s1 else splits zs s0 z + 1
+  | z :: zs, s0, s1 =>
+    if z == s0 || z == s1 then splits sIn zs s0 s1
+    else if sIn && z.x == s0.x && z.y < s0.y then splits sIn zs s0 s1   -- in the status: not split below its left end
+    else splits sIn zs s0 z + 1
 
 /-- the `changed` flag `splitAtIntersections` returns -/
-def changed (zs : List IPt) (s0 s1 : IPt) : Bool := splits zs.reverse s0 s1 != 0
+def changed (sIn : Bool) (zs : List IPt) (s0 s1 : IPt) : Bool := splits sIn zs.reverse s0 s1 != 0
+
+/-- `addIntersections` drops an intersection directly below the left end points of both segments
+when one of them is in the status -/
+def keepZ (aIn bIn : Bool) (a0 b0 : IPt) (zs : List IPt) : List IPt :=
+  zs.filter (fun z => !(z.x == a0.x && z.y < a0.y && z.x == b0.x && z.y < b0.y && (aIn || bIn)))
 
 /-- every split pushes the two new end points (`queue.Push(right); queue.Push(left)`) -/
-def pushed (zs : List IPt) (a0 a1 b0 b1 : IPt) : Nat :=
-  2 * splits zs.reverse a0 a1 + 2 * splits zs.reverse b0 b1
+def pushed (aIn bIn : Bool) (zs : List IPt) (a0 a1 b0 b1 : IPt) : Nat :=
+  2 * splits aIn (keepZ aIn bIn a0 b0 zs).reverse a0 a1 + 2 * splits bIn (keepZ aIn bIn a0 b0 zs).reverse b0 b1
 
 /-- the value `addIntersections` returns for a left-endpoint event -/
-def addRet (zs : List IPt) (a0 a1 b0 b1 : IPt) : Bool :=
-  if zs.isEmpty then false else changed zs a0 a1 || changed zs b0 b1
+def addRet (aIn bIn : Bool) (zs : List IPt) (a0 a1 b0 b1 : IPt) : Bool :=
+  if (keepZ aIn bIn a0 b0 zs).isEmpty then false
+  else changed aIn (keepZ aIn bIn a0 b0 zs) a0 a1 || changed bIn (keepZ aIn bIn a0 b0 zs) b0 b1
 
 def toPt (e0 : Int) (p : RawPt) : IPt := toI e0 p
 
 def handle : List String → Option String
-  | "ADDX" :: ts => do
+  | "ADDX" :: aIn :: bIn :: ts => do
+    let aIn := aIn == "1"
+    let bIn := bIn == "1"
     let (seg, ts) ← parsePts 4 ts
     match ts with
     | "Z" :: k :: ts => do
@@ -45,7 +61,7 @@ def handle : List String → Option String
       match seg.map (toPt e0) with
       | [a0, a1, b0, b1] =>
         let z := zs.map (toPt e0)
-        pure s!"{addRet z a0 a1 b0 b1} {pushed z a0 a1 b0 b1}"
+        pure s!"{addRet aIn bIn z a0 a1 b0 b1} {pushed aIn bIn z a0 a1 b0 b1}"
       | _ => none
     | _ => none
   | _ => none
